@@ -158,6 +158,15 @@ func (f changeFinder) Walk(from, to *value) (equal bool) {
 			f.unchanged(from, to)
 			return true
 		}
+
+		// A node that was edited in place (the package name when a patch
+		// renames the package, the parent of a replaced node) is still
+		// where it was, so the comments around it are still its comments.
+		// Forgetting them here would make a later change that deletes its
+		// neighbour delete the comments that trail this node too.
+		if sameNode(from, to) {
+			to.Comments = from.Comments
+		}
 		return false
 
 	case reflect.Slice:
@@ -185,6 +194,19 @@ func (f changeFinder) Walk(from, to *value) (equal bool) {
 	}
 }
 
+// sameNode reports whether from and to are snapshots of one and the same AST
+// node object.
+func sameNode(from, to *value) bool {
+	if !from.IsNode || !to.IsNode {
+		return false
+	}
+	for from.Kind() == reflect.Interface && to.Kind() == reflect.Interface &&
+		from.Elem != nil && to.Elem != nil {
+		from, to = from.Elem, to.Elem
+	}
+	return from.addr != 0 && from.addr == to.addr
+}
+
 func (f changeFinder) walkStruct(from, to *value) bool {
 	// The order of fields in AST structs matches how the elements appear in
 	// the code so we can treat fields as siblings
@@ -201,8 +223,17 @@ func (f changeFinder) walkStruct(from, to *value) bool {
 			// Comments trailing the Node belong to it, not to the range
 			// of the field that follows: deleting the first declaration of
 			// a file must not delete the comment after the package clause.
-			if _, after := f.commentsFor(c); len(after) > 0 {
-				lastEnd = maxPos(lastEnd, after[len(after)-1].End())
+			//
+			// This takes every comment of the Node that begins after the
+			// Node does, rather than those that begin after it ends: the
+			// end of a Node that was renamed in place is computed from
+			// its new name and may lie beyond the comments that trail it.
+			// Comments inside the Node end before it does and have no
+			// effect here.
+			for _, cg := range c.Comments {
+				if len(cg.List) > 0 && cg.Pos() >= c.Pos() {
+					lastEnd = maxPos(lastEnd, cg.End())
+				}
 			}
 		case c.Type() == goast.PosType:
 			// If the field is a token.Pos, its range begins based on whatever
